@@ -69,7 +69,7 @@ def c05(cfg, prop="C05"):
             if kind == "gauge" and sum(o) == 0:
                 continue
             A, B = f()
-            v = rec.oblige(f"{kind} order={o}", A, B, sig=sig(kind), replay=rp(kind, o))
+            v = rec.oblige(f"{kind} order={o}", A, B, sig=sig(kind) + f":order={sum(o)}", replay=rp(kind, o))
             if v == "sat":
                 bad.add(kind)
             if v != "structural" and sum(o) >= 1:
@@ -137,7 +137,7 @@ def c05_vs_hermitian(cfg, prop="C05"):
                 continue
             v = rec.oblige(
                 f"nonherm=={'herm'} {names[w]} order={o}", outN[w].get(o), outH[w].get(o),
-                sig=_sig(cfg, "vsherm-" + names[w]) + (":kept-couples-distinct-levels" if mixed else ":kept-degenerate"),
+                sig=_sig(cfg, "vsherm-" + names[w]) + (":kept-couples-distinct-levels" if mixed else ":kept-degenerate") + f":order={sum(o)}",
                 replay=rp(w, o),
             )
             if v == "sat":
